@@ -52,8 +52,13 @@ thread_local! {
 pub fn set_source_path(p: Option<PathBuf>) {
     SOURCE_PATH.with(|s| *s.borrow_mut() = p);
 }
+/// The sample rate the harness announces to both runtimes (and uses in the reference interpreter and in the host of
+/// the generated Rust). Deliberately none of the defaults found in the code base (44100 in the WASM runtime state,
+/// 48000 in the WASM dsp runtime and in the local buffer driver), so that a stale default shows.
+pub const HOST_SAMPLE_RATE: f64 = 32000.0;
 fn new_ctx(count: &Arc<AtomicU64>, scheduler: bool) -> (ExecContext, LocalBufferDriver) {
     let mut driver = LocalBufferDriver::new(0);
+    driver.set_sample_rate(mimium_audiodriver::driver::SampleRate::from(HOST_SAMPLE_RATE as u32));
     driver.count = count.clone();
     let plug: Box<dyn Plugin> = Box::new(driver.get_as_plugin());
     let path = SOURCE_PATH.with(|s| s.borrow().clone()).unwrap_or_else(|| PathBuf::from("/verif-input.mmm"));
@@ -136,7 +141,7 @@ impl Run {
                     ctx.run_wasm_on_init(rt.engine_mut());
                     rt.run_main().map_err(|e| RunErr::Crash(format!("main: {e}")))?;
                     ctx.run_wasm_after_main(rt.engine_mut());
-                    DspRuntime::set_sample_rate(&mut rt, 48000.0);
+                    DspRuntime::set_sample_rate(&mut rt, HOST_SAMPLE_RATE);
                     Ok(WasmRun { ctx, rt, ext_fns, plugin_fns: plugin_fns2, prev_skel: out.dsp_state_skeleton, io: out.io_channels, recompiler: None, swap_compiler: None, scheduler })
                 });
                 match r {
